@@ -20,4 +20,7 @@ def units(tier):
 
 
 def runner_tasks(tier):
-    return []
+    return [{"module": "c16", "task": "sample", "kind": "bounded", "clause": "direct substitution vs D2O_sld; fasta tables sweep"}]
+
+
+REPLAY = {'module': 'c16', 'task': 'replay'}
